@@ -131,6 +131,10 @@ def ref_optimization_objective(model, mspecs):
             total += math.inf if val > m["threshold"] else 0.0
         elif m["type"] == "atleast":
             total += math.inf if val < m["threshold"] else 0.0
+        elif m["type"] == "increaseby":
+            total += math.inf if (val / m["baseline"]) < (1 + m["amount"]) else 0.0
+        elif m["type"] == "decreaseby":
+            total += math.inf if (val / m["baseline"]) > (1 - m["amount"]) else 0.0
     return total
 
 
@@ -151,7 +155,8 @@ def close(a, b, rel=1e-9):
 
 def _clock_spec(ch):
     ncost = 8
-    costs = [ch.loguniform(f"clock.cost[{i}]", 1e-3, 100.0) for i in range(ncost)]
+    hi = [0.05, 1.0, 100.0][ch.choose("clock.cost_scale", 3)]  # fast / medium / slow evaluations: some runs never time out, some after one step
+    costs = [ch.loguniform(f"clock.cost[{i}]", 1e-3, hi) for i in range(ncost)]
     faults = {}
     if ch.flip("clock.fault", 0.3):
         kind = ch.pick("clock.fault_kind", ["jump_forward", "jump_backward", "stall"])
@@ -273,7 +278,7 @@ def gen_optimization(ch):
             t = [t0, [t0 + 1, t0 + 2.5, np.inf][ch.choose(f"meas[{i}].t1", 3)]]
         else:
             t = [min(end, start + 1 + ch.choose(f"meas[{i}].t", 3))]
-        mtype = ["min", "max", "atmost", "atleast"][ch.choose(f"meas[{i}].type", 4)] if i > 0 else ["min", "max"][ch.choose(f"meas[{i}].type", 2)]
+        mtype = ["min", "max", "atmost", "atleast", "increaseby", "decreaseby"][ch.choose(f"meas[{i}].type", 6)] if i > 0 else ["min", "max"][ch.choose(f"meas[{i}].type", 2)]
         sel = None
         if len(pops) >= 1 and ch.flip(f"meas[{i}].popsel", 0.35):
             k = 1 + ch.choose(f"meas[{i}].npops", len(pops))
@@ -399,6 +404,39 @@ def execute(spec, fault, bump):
 
         seams.patch(amodel.Model, "process", process_wrapper)
 
+        # legal mid-procedure failures other than a failing simulation
+        state["n_constrain"] = 0
+        state["n_loads"] = 0
+        orig_csb = aopt.constrain_sum_bounded
+
+        def csb_wrapper(*a, **k):
+            state["n_constrain"] += 1
+            if fault is not None and fault[1] == "FailedConstraint" and state["n_constrain"] == fault[0]:
+                state["fault_fired"] = True
+                raise aopt.FailedConstraint()
+            return orig_csb(*a, **k)
+
+        seams.patch(aopt, "constrain_sum_bounded", csb_wrapper)
+
+        class _PickleProxy:
+            """pickle module as seen by atomica.optimization: the j-th loads() fails"""
+
+            def __getattr__(self, name):
+                import pickle as _p
+
+                return getattr(_p, name)
+
+            def loads(self, b, *a, **k):
+                import pickle as _p
+
+                state["n_loads"] += 1
+                if fault is not None and fault[1] == "UnpicklingError" and state["n_loads"] == fault[0]:
+                    state["fault_fired"] = True
+                    raise _p.UnpicklingError("injected by simulator")
+                return _p.loads(b, *a, **k)
+
+        seams.patch(aopt, "pickle", _PickleProxy())
+
         # ---------------- snapshots of everything the caller owns ----------------------------
         def snapshot(objs):
             return {k: flatten(v) for k, v in objs.items() if v is not None}
@@ -460,6 +498,17 @@ def execute(spec, fault, bump):
                 measurables = []
                 for m in spec["measurables"]:
                     m = dict(m)
+                    if m["type"] in ("increaseby", "decreaseby"):
+                        # relative hard targets: the baseline is the value under the ORIGINAL instructions (documented);
+                        # an amount of 0 makes the starting point satisfy the target
+                        if base_model is None:
+                            with seams.patched():
+                                seams.patch(amodel.Model, "process", orig_process)
+                                base_model = P.run_sim(parset, progset, instructions).model
+                        m["baseline"] = ref_measurable_value(base_model, m["name"], m["t"], m["pops"])
+                        m["amount"] = 0.0
+                        if not m["baseline"]:
+                            m["type"] = "min"
                     if m["type"] in ("atmost", "atleast"):
                         if base_model is None:
                             with seams.patched():
@@ -468,9 +517,11 @@ def execute(spec, fault, bump):
                         v = ref_measurable_value(base_model, m["name"], m["t"], m["pops"])
                         m["threshold"] = v * (1 + m["threshold_margin"]) + 1e-9 if m["type"] == "atmost" else v * (1 - m["threshold_margin"]) - 1e-9
                     mspecs.append(m)
-                    cls = {"min": at.MinimizeMeasurable, "max": at.MaximizeMeasurable, "atmost": at.AtMostMeasurable, "atleast": at.AtLeastMeasurable}[m["type"]]
+                    cls = {"min": at.MinimizeMeasurable, "max": at.MaximizeMeasurable, "atmost": at.AtMostMeasurable, "atleast": at.AtLeastMeasurable, "increaseby": at.IncreaseByMeasurable, "decreaseby": at.DecreaseByMeasurable}[m["type"]]
                     if m["type"] in ("min", "max"):
                         measurables.append(cls(m["name"], m["t"], pop_names=m["pops"]))
+                    elif m["type"] in ("increaseby", "decreaseby"):
+                        measurables.append(cls(m["name"], m["t"], m["amount"], pop_names=m["pops"]))
                     else:
                         measurables.append(cls(m["name"], m["t"], m["threshold"], pop_names=m["pops"]))
                 constraints = None
@@ -555,14 +606,16 @@ def execute(spec, fault, bump):
                 violate("caller_state_modified", site, {"what": k2, "diff": diff_tokens(snap[k2], now, 4), "exit": "exception" if exc is not None else "normal", "exception": None if exc is None else f"{type(exc).__name__}: {str(exc)[:200]}"})
 
     hist = state["history"]
-    out = {"exit": None, "n_process": state["n_process"], "n_evals": len(hist), "violations": V, "history_digest": hashlib.sha256(repr(hist).encode()).hexdigest()[:16], "clock_elapsed": clock.elapsed, "clock_faults": clock.fired, "fault_fired": state["fault_fired"]}
+    out = {"exit": None, "n_process": state["n_process"], "n_constrain": state.get("n_constrain", 0), "n_loads": state.get("n_loads", 0), "n_evals": len(hist), "violations": V, "history_digest": hashlib.sha256(repr(hist).encode()).hexdigest()[:16], "clock_elapsed": clock.elapsed, "clock_faults": clock.fired, "fault_fired": state["fault_fired"]}
 
     # ---------------- failure paths -------------------------------------------------------
     if exc is not None:
         out["exit"] = f"exception:{type(exc).__name__}"
         if fault is not None and state["fault_fired"]:
             fk = fault[1]
-            expected = {"InjectedFault": InjectedFault, "MemoryError": MemoryError, "KeyboardInterrupt": KeyboardInterrupt}.get(fk)
+            import pickle as _pk
+
+            expected = {"InjectedFault": InjectedFault, "MemoryError": MemoryError, "KeyboardInterrupt": KeyboardInterrupt, "UnpicklingError": _pk.UnpicklingError}.get(fk)
             if fk == "BadInitialization":
                 if kind == "calibrate" and isinstance(exc, amodel.BadInitialization):
                     violate("bad_initialization_not_absorbed", "calibrate", {"exception": str(exc)[:200]})
@@ -595,7 +648,7 @@ def execute(spec, fault, bump):
 
     # ---------------- normal return: remaining oracles -------------------------------------
     out["exit"] = "returned"
-    if fault is not None and state["fault_fired"]:
+    if fault is not None and state["fault_fired"] and fault[1] != "FailedConstraint":
         # An absorbed, injected BadInitialization makes one evaluation look infinitely bad although its point
         # is fine; "no worse than the start" is a statement about true objective values, so the value oracles
         # are evaluated on fault-free executions only (side effects and bounds were checked above / below).
@@ -767,6 +820,21 @@ def run(ch, idx, tier):
             res = execute(spec, (k, fault_kinds_extra), bump)
             bump(f"fault:{fault_kinds_extra}_at_kth_simulation")
             absorb(res, f"crash{k}:{fault_kinds_extra}")
+    if kind == "optimize" and ref["exit"] == "returned":
+        # FailedConstraint is a legal outcome of the SLSQP projection at any evaluation: the step is rejected and the
+        # result must still be no worse than the start, within bounds and on budget (value oracles stay on)
+        nc = ref.get("n_constrain", 0)
+        for j in sorted({2 + ch.choose(f"fault.failed_constraint_at[{i}]", max(1, nc - 1)) for i in range(2)}) if nc > 1 else []:
+            res = execute(spec, (j, "FailedConstraint"), bump)
+            if res["fault_fired"]:
+                bump("fault:FailedConstraint_at_jth_projection")
+            absorb(res, f"constraint{j}:FailedConstraint")
+        nl = ref.get("n_loads", 0)
+        for j in sorted({1 + ch.choose(f"fault.unpickle_at[{i}]", max(1, nl)) for i in range(2)}) if nl else []:
+            res = execute(spec, (j, "UnpicklingError"), bump)
+            if res["fault_fired"]:
+                bump("fault:UnpicklingError_at_jth_model_copy")
+            absorb(res, f"unpickle{j}:UnpicklingError")
     if enumerated and N:
         bump("probe:all_crash_points_enumerated")
     # determinism of the simulation itself: the fault-free execution repeated must give the same history
